@@ -450,6 +450,10 @@ def c11(ctx, rep):
             hi = ("loopvar", li.uid, li.iter, (1,))
             it_ok = B in table_terms
             prevs = False
+            if L in table_terms and M.slice_of(B) is not None and M.slice_of(B)[0] in table_terms and M.slice_of(B)[1] == ("const", 1) and M.slice_of(B)[2] is None:
+                # form C: zip(table, table[1:]) — consecutive pairs; the first lower bound is table[0] (== 0, checked by C11.block-table)
+                prevs = True
+                it_ok = True
             if L[0] == "binop" and L[1] == "+" and L[2] == ("list", (("const", 0),)):
                 rest = L[3]
                 if M.builtin_call(rest, "list", 1):
@@ -545,9 +549,10 @@ def c11(ctx, rep):
         w = where(g, e.node)
         arg = e.a[2][0] if e.a[2] else None
         tmpl = sep = elems = None
-        if arg is not None and M.is_call(arg) and arg[1][0] == "attr" and arg[1][2] == "format" and arg[1][1][0] == "const" and len(arg[2]) == 1:
-            tmpl = arg[1][1][1]
-            j = arg[2][0]
+        af = M.as_format(arg) if arg is not None else None
+        if af is not None and len(af[1]) == 1:
+            tmpl = af[0]
+            j = af[1][0]
             if M.is_call(j) and j[1][0] == "attr" and j[1][2] == "join" and j[1][1][0] == "const" and len(j[2]) == 1:
                 sep, elems = j[1][1][1], j[2][0]
         flags = e.a[2][1] if len(e.a[2]) > 1 else dict(e.a[3]).get("flags")
